@@ -45,13 +45,17 @@ DESCRIBE = {
 RULE = ("partition: every lo<=hi<=12 x step 1..hi-lo+2; spans: every nnz<=12 x chunksize 1..nnz+2 and None, genome-wide and cis-only; "
         "pipeline: small coolers (incl. empty, 1 pixel, empty rows/chromosomes) x filter stacks x EVERY chunksize 1..nnz+1 and None x "
         "{builtin map, lazy generator, eager list, reversed, seeded shuffle, every permutation of <=5 chunk results (else 30 seeded shuffles), "
-        "Pool.map/imap/imap_unordered with 2-4 workers}, whole table and per-chromosome row ranges; balance: coolers n<=8/nnz<=20 (quick), "
+        "Pool.map/imap/imap_unordered with 2-4 workers}, whole table and per-chromosome row ranges, count column int32 (incl. signed and zero "
+        "values) or float64 holding count*4^-k below 1, nnz marginal (_binarize) and plain marginal; pipe_reuse: every chunksize x keys given as "
+        "chunksize=k / list / tuple / generator / iterator x maps, five runs off one split(); balance (also against the float64 copy of the matrix): coolers n<=8/nnz<=20 (quick), "
         "n<=10/nnz<=40 (thorough) x option vectors (mode, ignore_diags 0..2, min_nnz, min_count, mad_max, blacklist, tol, max_iters) x every "
         "chunksize with the builtin map and a spread of chunk sizes with every other functor; non-trivial = at least 2 chunks; distinct by canonical JSON")
 EXHAUSTIVE = {"quick": True, "thorough": True}
 TRUSTED = ["numpy arange/bincount/slicing, h5py slicing with clamping, functools.reduce, operator.add on arrays are primitives of the model",
            "multiprocess.Pool.map/imap preserve input order, imap_unordered returns every result exactly once (exercised, not proved)",
            "float64 addition/multiplication are exact on the integer counts and dyadic weights the pipeline check feeds (all partial sums < 2^53 ulps)",
+           "scaling a matrix by a power of two commutes with every float operation of balancing (no under/overflow at 4^-3): the float64 copy "
+           "with min_count and tol scaled alike must reproduce the integer file's masks and rescaled weights",
            "full balance_cooler runs are compared with each other (reference: chunksize=None, builtin map), the Lean contract checks the spans of every pass"]
 ASSUMPTIONS = ["chunksize >= 1 or None", "bin ids of stored pixels are below nbins (valid cooler, C02)", "counts non-negative in full-balance cases",
                "floating-point non-associativity is bounded (1e-9 relative), not modelled"]
@@ -893,6 +897,36 @@ def cases(tier, rng):
                     for kind in POOL_KINDS:
                         yield "pipeline", dict(base, map=kind, nproc=rng.randint(2, 4), seed=0)
 
+    # (b2) value domain of the count column: float64 values below 1 (v * 4**-k) and signed / zero integers; the stacks are
+    # the nnz marginal as the min_nnz pre-pass builds it (_binarize first) and a plain marginal of the float data
+    signed = ([2, 2], [[0, 0, -3], [0, 1, 2], [0, 3, -1], [1, 1, 0], [1, 2, 5], [2, 3, -7], [3, 3, 4]])
+    for ci, (chroms, px) in enumerate([signed] + coolers[2:]):
+        n, nnz = sum(chroms), len(px)
+        for si, fs in enumerate(([{"f": "binarize"}], [{"f": "binarize"}, {"f": "zero_diags", "n": 1}], [{"f": "zero_diags", "n": 1}])):
+            fshift = rng.choice([1, 2, 3]) if (ci > 0 or si == 1) else 0
+            w, shift = _rand_weights(rng, n) if si == 1 else (None, 0)
+            for cs in _chunk_sizes(nnz):
+                base = {"chroms": chroms, "pixels": px, "filters": fs, "w": w, "shift": shift, "chunksize": cs, "fshift": fshift}
+                for kind in ("builtin", rng.choice(SEQ_KINDS[1:] + ("perm_all",))):
+                    yield "pipeline", dict(base, map=kind, seed=rng.randint(0, 10 ** 6))
+                if rng.random() < (0.15 if thorough else 0.05):
+                    yield "pipeline", dict(base, map=rng.choice(POOL_KINDS), nproc=rng.randint(2, 4), seed=0)
+
+    # (b3) one split(), keys spelled five ways, run / branched / re-run / gathered / iterated
+    for ci, (chroms, px) in enumerate([coolers[2], coolers[3], coolers[4], signed] + coolers[5:(9 if thorough else 6)]):
+        nnz = len(px)
+        fs = [[], [{"f": "zero_diags", "n": 1}]][ci % 2]
+        fshift = [0, 2][ci % 2] if ci < 4 else rng.choice([0, 1, 3])
+        for cs in _chunk_sizes(nnz) + [nnz + 5]:
+            for form in KEY_FORMS:
+                if form == "default" and cs is None:
+                    continue
+                base = {"chroms": chroms, "pixels": px, "filters": fs, "fshift": fshift, "chunksize": cs, "keys": form}
+                yield "pipe_reuse", dict(base, map="builtin", seed=0)
+                yield "pipe_reuse", dict(base, map=rng.choice(SEQ_KINDS[1:]), seed=rng.randint(0, 10 ** 6))
+                if rng.random() < (0.2 if thorough else 0.08):
+                    yield "pipe_reuse", dict(base, map=rng.choice(POOL_KINDS), nproc=rng.randint(2, 4), seed=0)
+
     # (c) full balance_cooler across schedules -----------------------------------------------------
     nb = 60 if thorough else 18
     for bi in range(nb):
@@ -908,6 +942,11 @@ def cases(tier, rng):
         for cs in _chunk_sizes(nnz):
             yield "balance_schedules", dict(base, chunksize=cs, map="builtin", nproc=2, seed=0)
         spread = sorted({1, 2, 3, max(1, nnz // 2), max(1, nnz - 1), nnz, nnz + 1, rng.randint(1, max(1, nnz))})
+        # the same matrix as a float64 column of values below 1 (count * 4**-k): same masks, weights rescaled
+        fk = rng.choice([2, 2, 3])
+        for cs in rng.sample(spread, min(4 if thorough else 3, len(spread))) + [None]:
+            yield "balance_schedules", dict(base, chunksize=cs, map=rng.choice(["builtin", "shuffle", "pool.imap_unordered"]),
+                                            nproc=2, seed=rng.randint(0, 10 ** 6), fshift=fk)
         for kind in ("lazy", "reversed", "shuffle") + POOL_KINDS:
             sizes = spread if (thorough or kind in ("shuffle", "pool.imap_unordered")) else rng.sample(spread, min(3, len(spread)))
             for cs in sizes + ([None] if kind == "pool.imap_unordered" else []):
@@ -921,6 +960,7 @@ def cases(tier, rng):
                 "blacklist": None, "tol": 1e-5, "max_iters": 15 if thorough else 6}
         for cs, kind in ((5, "builtin"), (7, "shuffle"), (4, "pool.imap_unordered"), (36, "pool.map"), (1, "lazy") if thorough else (9, "lazy")):
             yield "balance_schedules", {"chroms": chroms, "pixels": px, "opts": opts, "chunksize": cs, "map": kind, "nproc": 3, "seed": 1}
+            yield "balance_schedules", {"chroms": chroms, "pixels": px, "opts": opts, "chunksize": cs, "map": kind, "nproc": 3, "seed": 1, "fshift": 2}
 
     # (d) CLI ------------------------------------------------------------------------------------------
     for k in range(4 if thorough else 1):
@@ -956,6 +996,12 @@ def distribution(name, case):
         yield f"{name}.mode={'cis' if o['cis_only'] else 'trans' if o['trans_only'] else 'genome-wide'}"
     if case.get("cis_chrom") is not None:
         yield f"{name}.rows=one chromosome"
+    if case.get("fshift"):
+        yield f"{name}.count column=float64 below 1"
+    if any(p[2] < 0 for p in case["pixels"]):
+        yield f"{name}.signed counts"
+    if "keys" in case:
+        yield f"{name}.keys={case['keys']}"
 
 
 def shrink(name, case):
@@ -975,7 +1021,9 @@ def shrink(name, case):
         yield dict(case, chunksize=case["chunksize"] - 1)
     if any(p[2] != 1 for p in px):
         yield dict(case, pixels=[[p[0], p[1], 1] for p in px])
-    if name == "pipeline":
+    if case.get("fshift"):
+        yield dict(case, fshift=0)
+    if name in ("pipeline", "pipe_reuse"):
         fs = case["filters"]
         for i in range(len(fs)):
             yield dict(case, filters=fs[:i] + fs[i + 1:])
